@@ -803,10 +803,12 @@ class VBSClusteringManager:
         )
 
         # --- Cluster information container ---
+        heard_cluster_id: Optional[int] = None
         cluster_info_ctr = params.get("vruClusterInformationContainer")
         if cluster_info_ctr:
             vci = cluster_info_ctr["vruClusterInformation"]
             c_id: int = vci.get("clusterId", 0)
+            heard_cluster_id = c_id
             cardinality: int = vci.get("clusterCardinalitySize", 1)
             # Extract radius from circular bounding box if present
             bbox = vci.get("clusterBoundingBoxShape")
@@ -914,11 +916,16 @@ class VBSClusteringManager:
                     else:
                         self._do_leave_to_standalone(ClusterLeaveReason.CLUSTER_DISBANDED_BY_LEADER)
 
-        # Refresh leader heartbeat when we are passive
+        # Refresh leader heartbeat when we are passive.  Only a *cluster* VAM
+        # of the joined cluster counts (timeClusterContinuity, clause 5.4.2.2):
+        # individual VAMs of the former leader must not keep a member silent.
         if (
             self._state is VBSState.VRU_PASSIVE
             and self._leader_station_id == sender_id
+            and heard_cluster_id is not None
+            and heard_cluster_id == self._joined_cluster_id
         ):
+
             self._last_leader_vam_time = now
 
     def _complete_join(self, leader_station_id: int) -> None:
